@@ -217,10 +217,18 @@ Definition cflist_channel_mask (s : st) : cflist :=
   CFMasks (chunk_masks (S (length (up s))) 16 (map enabled (up s))).
 
 (* getCFListChannels: the first five custom channels whose DR range is exactly
-   the band's CFList range; nil when the first slot stays 0 *)
-Definition cflist_channels (s : st) : option cflist :=
+   the band's CFList range; nil when all five slots stay 0 (fix for finding C15-7;
+   before it: nil as soon as the FIRST slot was 0, [cflist_channels_prefix]) *)
+Definition cflist_channel_slots (s : st) : list Z :=
   let sel := filter (fun c => custom c && (minDR c =? cfmin s) && (maxDR c =? cfmax s)) (up s) in
-  let fs := pad_to 0 5 (map freq (firstn 5 sel)) in
+  pad_to 0 5 (map freq (firstn 5 sel)).
+
+Definition cflist_channels (s : st) : option cflist :=
+  let fs := cflist_channel_slots s in
+  if forallb (fun f => f =? 0) fs then None else Some (CFChannels fs).
+
+Definition cflist_channels_prefix (s : st) : option cflist :=
+  let fs := cflist_channel_slots s in
   match fs with
   | 0 :: _ => None
   | _ => Some (CFChannels fs)
